@@ -53,7 +53,7 @@ OP_TRAITS = ("std::ops::", "std::cmp::PartialEq", "std::cmp::PartialOrd", "core:
 
 
 class Callee:
-    __slots__ = ("def_", "res", "name", "trait", "targs", "local", "res_local", "closure", "args_s")
+    __slots__ = ("def_", "res", "name", "trait", "targs", "local", "res_local", "closure", "args_s", "fterm")
 
     def __init__(self, j):
         self.def_ = norm(j["def"])
@@ -65,6 +65,7 @@ class Callee:
         self.res_local = j.get("res_local", False)
         self.args_s = j.get("args", "")
         self.closure = self.res if (self.res and "{closure#" in self.res) else None
+        self.fterm = None        # for a call through a function value: the term of that value
 
     def key(self):
         return self.res or self.def_
@@ -665,6 +666,7 @@ class TermEngine:
                 ft = self._operand(st, t["fnop"])
                 callee = Callee({"def": "<indirect>", "res": None, "local": False})
                 callee.targs = [repr(ft)]
+                callee.fterm = ft
             # `tab.get(i).expect("..")` / `.unwrap()` is the indexing expression `tab[i]` with a better message: it refuses
             # the same indices.  Seen as the Index call it stands for, every rule about table accesses reads it.
             if callee.name in ("unwrap", "expect", "unwrap_unchecked") and "ption" in (callee.def_ or "") and args:
